@@ -8,7 +8,7 @@
     observation must equal one of the model's predictions for that case (the model is nondeterministic
     only where the statement leaves a choice: which of several matching patterns wins, empty {name}
     segments, 404 or 405 for a path that matches under another method).
-(J) random larger cases (<= 6 Handle calls, a third of them derived from an earlier call: repeated, wildcards
+(J) random larger cases (<= 6 Handle calls, a fifth of them derived from an earlier call: repeated, wildcards
     renamed, other method, trailing slash toggled; values up to 6 characters, <= 3 middlewares, late Use) executed by
     the real code are validated as one batch trace against Trace_Mux.tla."""
 import json, os, urllib.parse
